@@ -21,7 +21,7 @@ import (
 type opSpec struct {
 	SleepNs int64  `json:"sleepNs"`
 	Len     int    `json:"len"`
-	Ctx     string `json:"ctx"` // bg | pre | cancel | timeout
+	Ctx     string `json:"ctx"` // bg | pre | cancel | timeout | tcancel (WithTimeout far ahead, cancelled explicitly) | child (WithCancel child of a far deadline, cancelled explicitly)
 	CtxNs   int64  `json:"ctxNs"`
 	After   string `json:"after,omitempty"` // "cancel": the caller cancels the context once the call has returned (defer cancel())
 }
@@ -73,6 +73,9 @@ func gen(r *harn.Rng, tier string) interface{} {
 			o.Ctx, o.CtxNs = "cancel", gaps[r.Intn(len(gaps))]
 		case 4, 5:
 			o.Ctx, o.CtxNs = "timeout", gaps[2+r.Intn(len(gaps)-2)]
+			if r.Bool(0.4) {
+				o.Ctx, o.CtxNs = []string{"tcancel", "child"}[r.Intn(2)], gaps[r.Intn(len(gaps))]
+			}
 		default:
 			o.Ctx = "bg"
 		}
@@ -122,7 +125,13 @@ type opResult struct {
 	returned bool
 	ctx      context.Context
 	preDone  bool
+	tCancel  time.Time // explicit cancellation of a deadline-carrying context
+	tRet     time.Time
 }
+
+// farAhead is the deadline of the "tcancel"/"child" contexts; an operation cancelled long
+// before it has to return long before it (stall faults: <= 40 s per scheduling step).
+const farAhead = 100 * time.Hour
 
 func run(env *simrt.Env, sci interface{}) {
 	sc := sci.(*scenario)
@@ -181,6 +190,24 @@ func run(env *simrt.Env, sci interface{}) {
 				c()
 				env.Fault("context-cancel")
 			})
+		case "tcancel", "child":
+			// a context that carries a deadline far ahead and is cancelled explicitly long before it
+			ctx, cancel = context.WithTimeout(context.Background(), farAhead)
+			if spec.Ctx == "child" {
+				parent := ctx
+				pc := cancel
+				var cc context.CancelFunc
+				ctx, cc = context.WithCancel(parent)
+				cancel = func() { cc(); pc() }
+			}
+			c := cancel
+			d := time.Duration(spec.CtxNs)
+			env.Go("canceller", func() {
+				env.Sleep(d)
+				c()
+				res.tCancel = env.Now()
+				env.Fault("context-cancel")
+			})
 		case "timeout":
 			ctx, cancel = context.WithTimeout(context.Background(), time.Duration(spec.CtxNs))
 		default:
@@ -207,6 +234,7 @@ func run(env *simrt.Env, sci interface{}) {
 		}
 		env.Leave()
 		res.returned = true
+		res.tRet = env.Now()
 		// checks made by the issuing worker right after the return
 		if res.n < 0 || (write && res.n > len(payload)) || (!write && res.n > spec.Len) {
 			env.Fail("C17/bad-count", "end %d %s returned n=%d", e, opName(write), res.n)
@@ -333,6 +361,21 @@ func run(env *simrt.Env, sci interface{}) {
 			for i, r := range results[e][k] {
 				if !r.returned && r.ctx.Err() != nil && !faulty[e] && !liveBlocker {
 					env.Fail("C17/cancelled-operation-stuck", "end %d %s #%d is still blocked at quiescence although its context is done (%v)", e, opName(k == 1), i, r.ctx.Err())
+					return
+				}
+			}
+		}
+	}
+	// promptness: an operation whose deadline-carrying context was cancelled explicitly returns
+	// because of the cancellation, not because the (far) deadline finally passed
+	for e := 0; e < 2; e++ {
+		for k := 0; k < 2; k++ {
+			for i, r := range results[e][k] {
+				if faulty[e] || !r.returned || r.tCancel.IsZero() || !r.tRet.After(r.tCancel) {
+					continue
+				}
+				if late := r.tRet.Sub(r.tCancel); late > farAhead/2 {
+					env.Fail("C17/cancellation-not-prompt", "end %d %s #%d returned (%d, %v) %v after its context was cancelled (the context's own deadline lay %v ahead): it was released by the deadline, not by the cancellation", e, opName(k == 1), i, r.n, r.err, late, farAhead)
 					return
 				}
 			}
